@@ -488,6 +488,9 @@ func (a *ar) block(ss []ast.Stmt, en env, ind string) string {
 		if (a.appendTo != "" || a.appendCodes != nil) && v.Tok == token.CONTINUE && v.Label == nil {
 			return ind + "appended_"
 		}
+		if a.fn == "loopStep" && v.Tok == token.BREAK && v.Label == nil {
+			return ind + "(true, count, attempted_)"
+		}
 	case *ast.ReturnStmt:
 		return ind + a.ret(v, en)
 	case *ast.DeclStmt:
@@ -585,6 +588,9 @@ func (a *ar) block(ss []ast.Stmt, en env, ind string) string {
 		if lines, ok := a.assignAtoms[srcOfNode(v)]; ok {
 			out := ""
 			for _, l := range strings.Split(lines, "\n") {
+				if l == "" {
+					continue
+				}
 				out += ind + l + "\n"
 			}
 			return out + a.block(rest, en, ind)
